@@ -420,6 +420,11 @@ func (s *RocksDBStore) Close() error {
 		s.db.Close()
 	}
 
+	if s.backupEngine != nil {
+		s.backupEngine.Close()
+		s.backupEngine = nil
+	}
+
 	if s.backupOpts != nil {
 		s.backupOpts.Destroy()
 	}
